@@ -129,6 +129,16 @@ def c05(idx: Index, rep: Report, tier: str) -> None:
     # effects of one instant are applied together: the start/effect tie is broken towards the start
     rule = "C05.3 same-instant-tie-break"
     f = idx.func("engines.plan_validator.TimeTriggeredPlanValidator._validate")
+    from ..roles import with_roles
+
+    # roles: the list of pending starts (popped into a (time, instance, duration) triple), the heap of scheduled effects
+    roles = {}
+    for a in walk_no_nested(f.node):
+        if isinstance(a, ast.Assign) and isinstance(a.targets[0], ast.Tuple) and len(a.targets[0].elts) == 3 and isinstance(a.value, ast.Call) and call_name(a.value) == "pop" and isinstance(a.value.func.value, ast.Name):
+            roles[a.value.func.value.id] = "start_actions"
+        if isinstance(a, ast.Call) and call_name(a) in ("heappop", "heappush") and a.args and isinstance(a.args[0], ast.Name):
+            roles[a.args[0].id] = "scheduled_effects"
+    f = with_roles(f, roles)
     cmp_ = []
     for n in walk_no_nested(f.node):
         if isinstance(n, ast.Compare) and len(n.ops) == 1 and "start_actions[-1][0]" in norm(n) and "scheduled_effects[0][0]" in norm(n):
